@@ -322,6 +322,7 @@ class QueryScheduler:
         '_next_scheduled_for_alias',
         '_query_heap',
         '_next_run',
+        '_earliest_next_run_millis',
         '_clock_resolution_millis',
         '_question_type',
     )
@@ -349,6 +350,7 @@ class QueryScheduler:
         self._next_scheduled_for_alias: Dict[str, _ScheduledPTRQuery] = {}
         self._query_heap: list[_ScheduledPTRQuery] = []
         self._next_run: Optional[asyncio.TimerHandle] = None
+        self._earliest_next_run_millis: float = 0.0
         self._clock_resolution_millis = time.get_clock_info('monotonic').resolution * 1000
         self._question_type = question_type
 
@@ -388,6 +390,15 @@ class QueryScheduler:
         """Schedule a query for a pointer."""
         self._next_scheduled_for_alias[scheduled_query.alias] = scheduled_query
         heappush(self._query_heap, scheduled_query)
+        # The timer may be armed for a later deadline than this query,
+        # bring it forward but keep the minimum time between queries
+        next_run = self._next_run
+        if next_run is None or self._loop is None or self._startup_queries_sent < STARTUP_QUERIES:
+            return
+        when = millis_to_seconds(max(scheduled_query.when_millis, self._earliest_next_run_millis))
+        if when < next_run.when():
+            next_run.cancel()
+            self._next_run = self._loop.call_at(when, self._process_ready_types)
 
     def cancel_ptr_refresh(self, pointer: DNSPointer) -> None:
         """Cancel a query for a pointer."""
@@ -448,6 +459,7 @@ class QueryScheduler:
         # switch to a strategy of sending queries only when we
         # need to refresh records that are about to expire
         if self._startup_queries_sent >= STARTUP_QUERIES:
+            self._earliest_next_run_millis = now_millis + self._min_time_between_queries_millis
             self._next_run = self._loop.call_at(
                 millis_to_seconds(now_millis + self._min_time_between_queries_millis),
                 self._process_ready_types,
@@ -496,11 +508,15 @@ class QueryScheduler:
 
         for query in schedule_rescue:
             self.schedule_rescue_query(query, now_millis, RESCUE_RECORD_RETRY_TTL_PERCENTAGE)
+        if schedule_rescue:
+            # A rescue query may be due before the next query found above
+            next_scheduled = self._query_heap[0] if self._query_heap else None
 
         if ready_types:
             self.async_send_ready_queries(False, now_millis, ready_types)
 
         next_time_millis = now_millis + self._min_time_between_queries_millis
+        self._earliest_next_run_millis = next_time_millis
 
         if next_scheduled is not None and next_scheduled.when_millis > next_time_millis:
             next_when_millis = next_scheduled.when_millis
